@@ -9,7 +9,7 @@ def camp(profile, q, t):
     return {'profile': profile, 'n_quick': q, 'n_thorough': t}
 
 PROPS = {}
-HOOK_COMMITS = ['bda95c1', '20cf912']
+HOOK_COMMITS = ['bda95c1', '20cf912', '8f0e177']
 LEDGER_THMS = ['Minter.balanced_preserves', 'Minter.planOf_balanced', 'Minter.Move.balanced', 'Minter.checked_holdings', 'Minter.checked_volume', 'Minter.checked_side']
 MODEL_NOTE = 'Theorems are about the Lean model (MinterModel); transaction types not yet in the model are listed in DESIGN.md and are covered only by the monitors evaluated on the real node'
 PROPS['C01'] = {
